@@ -23,6 +23,9 @@ except ImportError:
 
 def _as_int(*ordinals):
     """Ordinals may arrive as NumPy integers of any width; byte offsets are computed with Python integers"""
+    for o in ordinals:
+        if o is not None and int(o) != o:
+            raise TypeError(f"Ordinals must be whole numbers, not {o!r}")
     return tuple(o if o is None else int(o) for o in ordinals)
 
 
